@@ -47,10 +47,10 @@ func init() {
 			}
 			return 8
 		},
-		Rule: "each case = 1..60 event logs (address from a small pool or random, EOA/contract; 1..5 indexed values of length 0..80 including empty and nil entries, values shared between logs and positions) spread over 1..8 real receipts (receipt versions 1, 2, 3; a third of the receipts are re-read from their serialized bytes), receipt blooms merged into a block bloom through a flushed and reloaded real receipt list (the merge loop of transition.go) and, separately, merged in random order and grouping; the block bloom is then passed through CompressedBytes/NewLogsBloomFromCompressed, Bytes/NewLogsBloom, LogBytes, RLP and JSON. Every emitting address and every non-nil (position,value) must be Contain-ed (query bloom built like server/wsevent.go) in its receipt bloom, the block bloom and every re-encoded form. Non-trivial = distinct case with >= 2 logs in >= 2 receipts.",
+		Rule: "each case = 1..60 event logs (address from a small pool or random, EOA/contract; 1..5 indexed values of length 0..80 including empty and nil entries, values shared between logs and positions) spread over 1..8 real receipts (receipt versions 1, 2, 3; a third of the receipts are re-read from their serialized bytes), receipt blooms merged into a block bloom through a flushed and reloaded real receipt list (the merge loop of transition.go) and, separately, merged in random order and grouping; the block bloom is then passed through CompressedBytes/NewLogsBloomFromCompressed, Bytes/NewLogsBloom, LogBytes, RLP and JSON. Every emitting address and every non-nil (position,value) must be Contain-ed (query bloom built like server/wsevent.go) in its receipt bloom, the block bloom and every re-encoded form. Every 4th case additionally merges 100..400 high-entropy logs (receipts of 10..120 logs, V3 receipts re-read from their bytes) into one bloom and, after every merged receipt, passes the running bloom through CompressedBytes/NewLogsBloomFromCompressed: restored bloom byte-equal and Contain for everything logged so far (dense = >= 200 non-zero bytes). Non-trivial = distinct case with >= 2 logs in >= 2 receipts, or a distinct dense bloom.",
 		MinNonTrivial: func(t string) int { return 5000 },
 		Required: []string{"items_address", "items_indexed", "contain_checks", "after_compress_checks", "receipts_v1", "receipts_v2", "receipts_v3",
-			"receipts_reloaded", "list_merge_blocks", "foreign_impl_checks", "nil_entries_skipped", "empty_values", "negative_controls_absent"},
+			"receipts_reloaded", "list_merge_blocks", "dense_series", "dense_bloom_compressed_roundtrips", "full_width_bloom_compressed_roundtrips", "dense_v3_receipts_reloaded", "foreign_impl_checks", "nil_entries_skipped", "empty_values", "negative_controls_absent"},
 		Assumptions: []string{
 			"logs carry at least one indexed value (the event signature): AddLog by design records nothing for a log without indexed values, so such a log carries no expectation",
 			"nil indexed entries are 'no value' and carry no expectation (the query side skips them the same way)",
@@ -384,6 +384,9 @@ func run(c *ev.Ctx) {
 		// --- re-encoded forms of the block bloom ---
 		cb := block.CompressedBytes()
 		fromC := txresult.NewLogsBloomFromCompressed(cb)
+		if !fromC.Equal(&block) {
+			c.Violation("after-compress.bloom-bytes-differ", map[string]string{"bloom": hx(block.LogBytes()), "compressed": hx(cb), "restored": hx(fromC.Bytes())})
+		}
 		k.mustContain("after-compress", fromC, nil)
 		c.Count("after_compress_checks", len(k.items))
 		k.mustContain("after-bytes", txresult.NewLogsBloom(block.Bytes()), nil)
@@ -470,6 +473,10 @@ func run(c *ev.Ctx) {
 		}
 		if c.WantSample() && len(logs) <= 3 {
 			c.Sample(k.witness("sample", k.items[0], &block))
+		}
+		// every 4th case: a dense bloom built from hundreds of logs
+		if ci%4 == 0 && !c.Stopped() {
+			dense(c, r)
 		}
 	})
 }
